@@ -171,7 +171,7 @@ class Interp:
                 # `from jesse.services import selectors`; but a package may also define the name itself
                 if self.repo.has_module(m):
                     pm = self.repo.module(m)
-                    if attr in pm.top and not (isinstance(pm.top[attr], tuple)):
+                    if attr in pm.top and pm.top[attr] != ('from', m, attr) and pm.top[attr] != ('import', f'{m}.{attr}'):
                         return self.resolve_global(pm, attr)
                 return ModRef(f'{m}.{attr}', True)
             if self.repo.has_module(m):
